@@ -16,7 +16,11 @@ ALSO = {"C15-2": ["C08"], "C13-2": ["C20"], "C18-2": ["C05", "C06"], "C12-2": ["
 
 def run_seed(pid):
     out = []
-    seeds = sorted(d for d in os.listdir(os.path.join(V, "seeded")) if d.startswith(pid + "-"))
+    only = None
+    if ":" in pid:                      # "C05:6,7,8" -> only those seeds
+        pid, ks = pid.split(":")
+        only = {"%s-%s" % (pid, k) for k in ks.split(",")}
+    seeds = sorted(d for d in os.listdir(os.path.join(V, "seeded")) if d.startswith(pid + "-") and (only is None or d in only))
     for sd in seeds:
         k = sd.split("-")[1]
         res = {}
